@@ -54,7 +54,7 @@ pub fn h_vacant_insert_full_frame<K: Shape, V: Shape, const N: usize>() {
 // *move* elements, hence "slot j afterwards is bit-identical to slot j' before" is
 // the strongest statement of what they do.
 
-pub const MAXB: usize = 64;
+pub const MAXB: usize = 16;
 
 #[derive(Clone, Copy)]
 pub struct Snap {
